@@ -121,9 +121,9 @@ pub struct Trace {
     pub leaked_ids: Vec<u64>,
 }
 
-fn probe(d: &dyn Drv, universe: u64, collide: bool) -> ProbeObs {
+fn probe(d: &dyn Drv, universe: u64, collide: bool, zero_even: bool) -> ProbeObs {
     let mut p = ProbeObs::default();
-    let kb = crate::val::Kb { collide };
+    let kb = crate::val::Kb { collide, zero_even };
     let before = stretto::verif::seq::next();
     for k in 0..universe {
         p.est.push(d.estimate(kb.pair(k).0));
@@ -176,7 +176,7 @@ pub fn run_script(flavor: Flavor, s: &Script) -> Trace {
     let mut ev_pos = 0usize;
     let mut record = |d: &dyn Drv, step: usize, tick_at: Option<u64>, ret_bool: Option<bool>, ret_err: Option<String>, seen: Option<Option<Seen>>, wait_err: Option<String>, update_path: bool, tr: &mut Trace| {
         phase("check");
-        let probe = probe(d, s.universe, s.cfg.collide);
+        let probe = probe(d, s.universe, s.cfg.collide, s.cfg.collide_zero_even);
         let snap = d.snapshot();
         let events = val::log_since(ev_pos);
         ev_pos += events.len();
@@ -413,6 +413,7 @@ pub fn generate(p: &Profile, rng: &mut Rng, history_no: u64, item_size: usize) -
         ignore_internal,
         cleanup: if default_interval { None } else { Some(Duration::from_millis(interval_ms)) },
         collide: p.collide,
+        collide_zero_even: p.collide && history_no % 2 == 1,
         manual_ticker: true,
     };
     let start_ns = 1_700_000_000 * NS + rng.below(1000) * NS + *rng.pick(OFFSETS_NS);
@@ -468,7 +469,13 @@ pub fn generate(p: &Profile, rng: &mut Rng, history_no: u64, item_size: usize) -
             if ttl_ns > 0 {
                 deadlines.push(vnow + ttl_ns);
             }
-            steps.push(Step::Insert { k, id: idc, cost, aux, ttl_ns });
+            if p.collide && history_no % 2 == 1 && k % 2 == 1 {
+                // the odd key of a pair never owns the slot in this mode: its operations are look-ups,
+                // removes, conditional and in-place writes against the even key's entry
+                steps.push(Step::InsertIfPresent { k, id: idc, cost, aux });
+            } else {
+                steps.push(Step::Insert { k, id: idc, cost, aux, ttl_ns });
+            }
         } else if take!(p.w_if_present) {
             idc += 1;
             let (cost, aux) = cost_of(rng, k);
